@@ -127,7 +127,9 @@ var c15Client = ClientSpec{ID: 1, Grants: []string{"authorization_code", "refres
 
 func c15Opts(rotation bool) []Opt {
 	o := []Opt{{Name: "WithScopes", Scopes: []Scope{{ID: "openid"}, {ID: "email"}}}, {Name: "WithAuthorizationCodeGrant"},
-		{Name: "WithRefreshTokenGrant", Z: 600}}
+		// the embedder's issue-refresh-token function answers "no" for a refreshed grant info (grant type
+		// refresh_token): rotation must not depend on it (Model/Race.v rc_opts)
+		{Name: "WithRefreshTokenGrant", Z: 600, S: "IssueCodeOnly"}}
 	if rotation {
 		o = append(o, Opt{Name: "WithRefreshTokenRotation"})
 	}
